@@ -46,12 +46,17 @@ func main() {
 	r.Rule("family truncbatch (truncated cfheaders batches on chains of 2000-4300 blocks): peers answering a getcfheaders with the requested stop hash, the right previous filter header and only the first N true filter hashes - N = one whole checkpoint interval of a two-interval request (the batch hashes up to the intermediate checkpoint) or an odd count (1, 999, 1001, 1500, random); the truncating peer alone / every peer truncating / truncating peers next to honest ones (sometimes with a provable liar or a silent peer); chains of 3000+ so that a further batch is written after the truncated answer. The first plans are seed-independent (lone; all peers with a further batch; two truncating + one honest; four odd truncations + one honest). Same oracle: a truncated batch says nothing false about any block, so with an honest peer present the ground truth is committed, the session does not end behind and no honest peer is banned; in every session the filter store stays readable up to the tip it names and no block-manager call panics (a panic in a step after which the stores cannot be read back is reported too)")
 	r.Rule("family twostage (checkpointed sync starting from a partially stored interval): stage 1 syncs a chain of PreLen blocks completely (filter tip = PreLen: 20-900, 1000+x, 2000+x, sometimes exactly on a checkpoint), stage 2 lets the honest chain end 1000-2500 blocks higher (sometimes forking 1-30 blocks below the stage-1 tip), syncs the block headers and continues the filter rounds; honest peers, provable / other liars, truncating peers, silent peers, growth and reorganisations mixed in. The first plans are seed-independent (332 -> 1500 honest; 1007 -> 3100 with a provable liar; 600 forked by 5 -> 3050 with a truncating peer). Same oracle")
 	nTrunc, nTwo := r.Pick(12, 300), r.Pick(7, 200)
+	r.Rule("family iofault (ONE transient I/O error underneath the real stores: a flat-file Write / short write / Truncate / Sync / ReadAt / Stat / Seek or a database Update / View failing once, at a chosen call position, while one headers message is handled or one filter-header round runs) in sessions with block AND filter headers synced: growth, reorganisations with the filter tip above the fork point, an off-chain peer running into a hard-coded checkpoint (rollback to the previous one); afterwards the same branch is offered again, filter-header rounds run, and the chain grows and reorganises again. A panic of the client in the step of the fault is the death of the process: stores reopened through the constructors, fresh block manager, peers reconnect; the reference restarts from what the reopened stores hold. If the client carries on, the same oracle applies to that step and to every later one. The first plans are seed-independent (truncate of either file in a reorganisation rollback / in the checkpoint rollback; a read failing right after a filter-header batch was committed; a short header write; the failed write of the first header of a new branch)")
+	nIO := r.Pick(30, 500)
 	cbs := l1.FilterCallbacks{
 		OnStep: func(fs *l1.FilterSession, st *l1.StepObs) {
 			changed := len(st.PreF) != len(st.PostF)
 			fp := fmt.Sprintf("%s|%s|chg=%v|reorgAt=%s|cps=%d", behaviours(fs), st.Kind, changed, fs.Plan.ReorgAt, len(fs.Plan.FilterCPs))
 			if !fs.Plan.BlockFault.Off() {
 				fp += fmt.Sprintf("|blockfault=%s|failed-in-step=%v", fs.Plan.BlockFault, blockFailedInStep(fs))
+			}
+			if st.Fault != "" {
+				fp += fmt.Sprintf("|fault=%s|crash=%v", st.FaultShape, st.Crash != "")
 			}
 			if fs.Plan.Family != "" {
 				fp += "|" + fs.Plan.Family
@@ -63,18 +68,18 @@ func main() {
 			r.Count("steps", 1)
 			r.Count("filter_headers_committed", int64(max(0, len(st.PostF)-len(st.PreF))))
 			if st.Panic != "" {
-				r.Violation(evid.Sig("c03/panic", st.Kind), "block manager panicked: "+st.Panic, witness(fs, st))
+				r.Violation(evid.Sig("c03/panic", st.Kind)+fs.SigSuffix, "block manager panicked: "+st.Panic, witness(fs, st))
 			}
 			for _, f := range l1.CheckC03(fs, st, false) {
-				r.Violation(f.Sig, f.What, witness(fs, st))
+				r.Violation(f.Sig+fs.SigSuffix, f.What, witness(fs, st))
 			}
 		},
 		OnStoreErr: func(fs *l1.FilterSession, st *l1.StepObs, err error) {
-			r.Violation(evid.Sig("c03/store-unreadable", fs.Plan.ReorgAt), fmt.Sprintf("stores unreadable: %v", err), witness(fs, st))
+			r.Violation(evid.Sig("c03/store-unreadable", fs.Plan.ReorgAt)+fs.SigSuffix, fmt.Sprintf("stores unreadable: %v", err), witness(fs, st))
 			// The step that left the stores unreadable never reached OnStep:
 			// a panic of the block manager in it is reported here.
 			if fs.PanicKind != "" {
-				r.Violation(evid.Sig("c03/panic", fs.PanicKind), "block manager panicked: "+fs.PanicText, witness(fs, st))
+				r.Violation(evid.Sig("c03/panic", fs.PanicKind)+fs.SigSuffix, "block manager panicked: "+fs.PanicText, witness(fs, st))
 			}
 		},
 		OnEnd: func(fs *l1.FilterSession, err error) {
@@ -94,7 +99,7 @@ func main() {
 			}
 			st.Pre, st.PreF = st.Post, st.PostF
 			for _, f := range l1.CheckC03(fs, st, true) {
-				r.Violation(f.Sig, f.What, witness(fs, st))
+				r.Violation(f.Sig+fs.SigSuffix, f.What, witness(fs, st))
 			}
 			if len(st.PostF) == len(st.Post) {
 				r.Count("sessions_converged", 1)
@@ -112,6 +117,9 @@ func main() {
 			if !fs.Plan.BlockFault.Off() {
 				countBlockFail(r, fs, len(st.PostF) < len(st.Post))
 			}
+			if strings.HasPrefix(fs.Plan.Family, "iofault") {
+				countIOFault(r, fs)
+			}
 			r.Count("queryAllPeers_calls", int64(fs.Net.QueriesAll))
 			r.Count("dispatcher_batches", int64(fs.Net.QueriesBatch))
 			r.Sample(map[string]any{"plan": fs.Plan, "script_tail": tail(fs.Steps, 8), "bans": fs.Bans,
@@ -123,7 +131,8 @@ func main() {
 	devOnly := os.Getenv("C03_MULTICP_ONLY") != ""
 	devBF := os.Getenv("C03_BLOCKFAIL_ONLY") != ""
 	devCU := os.Getenv("C03_CATCHUP_ONLY") != ""
-	if devOnly || devBF || devCU {
+	devIO := os.Getenv("L1_IOFAULT_ONLY") != ""
+	if devOnly || devBF || devCU || devIO {
 		end := cbs.OnEnd
 		cbs.OnEnd = func(fs *l1.FilterSession, err error) {
 			if fs != nil {
@@ -131,7 +140,9 @@ func main() {
 			}
 			end(fs, err)
 		}
-		if devCU {
+		if devIO {
+			l1.RunIOFaultFilter(r.Seed, nIO, cbs)
+		} else if devCU {
 			l1.RunCatchUpFilter(r.Seed, nTrunc, nTwo, cbs)
 		} else if devBF {
 			l1.RunBlockFailFilter(r.Seed, nBF, cbs)
@@ -144,6 +155,7 @@ func main() {
 	l1.RunMultiCPFilter(r.Seed, nMulti, cbs)
 	l1.RunBlockFailFilter(r.Seed, nBF, cbs)
 	l1.RunCatchUpFilter(r.Seed, nTrunc, nTwo, cbs)
+	l1.RunIOFaultFilter(r.Seed, nIO, cbs)
 	// L2 part: the REAL cfHandler loop (cached checkpoints, waits, retries),
 	// real queryAllPeers and work manager, with a reorganisation arriving
 	// while block headers are still syncing and filter headers are part-way.
@@ -228,6 +240,25 @@ func countBlockFail(r *evid.Run, fs *l1.FilterSession, behind bool) {
 		} else {
 			r.Count("blockfail_fixed_plans_reaching_a_failed_download", 1)
 		}
+	}
+}
+
+// countIOFault records what a session of the iofault family observed.
+func countIOFault(r *evid.Run, fs *l1.FilterSession) {
+	fam := fs.Plan.Family
+	if strings.HasPrefix(fam, "iofault/random") {
+		fam = "iofault/random"
+	}
+	r.Count("sessions:"+fam, 1)
+	counts, marks, inc := l1.IOFaultEvidence(fs)
+	for k, v := range counts {
+		r.Count(k, v)
+	}
+	for _, m := range marks {
+		r.Mark(m)
+	}
+	if inc != "" {
+		r.Inconclusive(inc)
 	}
 }
 
